@@ -74,3 +74,71 @@ Theorem C05_failed_get_consumes_nothing : forall s c s' r,
 Proof. exact Proofs.Buffer.step_get_fail. Qed.
 Print Assumptions C05_failed_get_consumes_nothing.
 End BufferClause.
+
+(* C05 (part: Buffer + WaitCond composed) — a blocked consumer.Get always wakes.
+   Model: Model/ShutdownProto.v (see Properties/C12_part_shutdown.v for the reading of [reachable_upto] and
+   [quiescent]): Get's synchronous check under the read lock, its getAsync goroutine running WaitCond on b.cond under
+   the write lock with the combined context, WaitCond's watcher, CombineContext's AfterFunc, against Put, cancellation of
+   the caller's context, Buffer.Close, consumer.Close, Commit/Rollback and Diff, one step per lock/cond/context/channel
+   operation.  Statements only. *)
+From Coq Require Import NArith.
+From BB.Model Require ShutdownProto.
+From BB.Proofs Require ShutdownProto.
+
+Section GetWakes.
+Import BB.Model.ShutdownProto.
+Import BB.Model.ShutdownProto.
+
+(* No lost wake-up: in every quiescent state in which Get has been called and a value is available, or the consumer's,
+   the buffer's or the caller's context is cancelled — wherever the Put / cancel / Close fell relative to Get's check,
+   its goroutine's check and its parking — Get has returned with a result, its goroutines are gone, the locks free. *)
+Theorem C05_parked_get_wakes : forall s, Proofs.ShutdownProto.reachable_upto 2 s ->
+  quiescent faithful s = true -> get_called s = true ->
+  avail s = true \/ ccan s = true \/ bcan s = true \/ ucan s = true ->
+  get_returned s = true /\ gres s <> RNone /\ get_goroutines_gone s = true /\ locks_free s = true.
+Proof. exact Proofs.ShutdownProto.parked_get_wakes2. Qed.
+Print Assumptions C05_parked_get_wakes.
+
+(* ... and a Get that is still blocked when nothing can move is blocked legitimately: no value, nothing cancelled, nothing
+   closed; it holds c.mutex, so at most a Diff, a Commit/Rollback and a consumer.Close wait behind it. *)
+Theorem C05_blocked_get_is_legitimate : forall s, Proofs.ShutdownProto.reachable_upto 2 s ->
+  quiescent faithful s = true -> get_called s = true -> get_returned s = false ->
+  get_parked s = true /\ avail s = false /\ ccan s = false /\ bcan s = false /\ ucan s = false /\
+  bclose_called s = false /\ consumer_open s = true /\ cm s = CG /\
+  (df s = DIdle \/ df s = DLockC) /\ (cr s = CRIdle \/ cr s = CRLockC) /\
+  (cclose_called s = true -> cc s = CCBody /\ cl s = ClLockC).
+Proof. exact Proofs.ShutdownProto.blocked_get_is_legitimate2. Qed.
+Print Assumptions C05_blocked_get_is_legitimate.
+
+(* "promptly": every step decreases the measure, so the quiescent states above cannot be postponed for ever *)
+Theorem C05_every_step_decreases_mu : forall s pk s', Proofs.ShutdownProto.reachable_upto 2 s ->
+  step faithful s pk = Some s' -> (mu s' < mu s)%N.
+Proof. exact Proofs.ShutdownProto.every_step_decreases_mu2. Qed.
+Print Assumptions C05_every_step_decreases_mu.
+
+(* the result is the right one: a value only if there was one, an error only on a cancelled context; a Get begun after
+   the consumer's context was cancelled fails without read-locking the buffer, spawning or parking *)
+Theorem C05_get_result_meaning : forall s, Proofs.ShutdownProto.reachable_upto 2 s ->
+  (gres s = RVal -> avail s = true) /\
+  (gres s = RErr -> ccan s = true \/ ucan s = true) /\
+  (gafter s = true -> gres s <> RVal /\ ga s = GANone /\ gr s = false).
+Proof. exact Proofs.ShutdownProto.get_result_meaning2. Qed.
+Print Assumptions C05_get_result_meaning.
+
+(* sensitivity, same step function: the watcher broadcasting without b.mutex, or WaitCond not re-checking the context
+   after a wake-up, loses the wake-up of a cancelled Get *)
+Theorem C05_get_watcher_needs_lock_refuted :
+  exists sched, let s := run Proofs.ShutdownProto.var_watcher_no_lock (init false false true 1 0 0 0) sched in
+    quiescent Proofs.ShutdownProto.var_watcher_no_lock s = true /\ get_called s = true /\ ucan s = true /\
+    get_returned s = false /\ get_parked s = true /\ gw s = TExit.
+Proof. exact Proofs.ShutdownProto.watcher_needs_lock_refuted. Qed.
+Print Assumptions C05_get_watcher_needs_lock_refuted.
+
+Theorem C05_get_recheck_ctx_refuted :
+  exists sched, let s := run Proofs.ShutdownProto.var_no_recheck (init false false true 1 0 0 0) sched in
+    quiescent Proofs.ShutdownProto.var_no_recheck s = true /\ ucan s = true /\ get_returned s = false /\
+    get_parked s = true /\ gw s = TExit.
+Proof. exact Proofs.ShutdownProto.recheck_ctx_refuted. Qed.
+Print Assumptions C05_get_recheck_ctx_refuted.
+End GetWakes.
+
